@@ -34,7 +34,8 @@ Proof.
   - dbind H as [s1 v1]. apply IHa in E.
     destruct v1; try discriminate;
       try (destruct (py_own_attr f); [discriminate|]);
-      try (injection H as <- _; exact E).
+      try (injection H as <- _; exact E);
+      try (destruct (String.eqb f "id"); [injection H as <- _; exact E|discriminate]).
     + destruct (nth_error (heap s1) h); [|discriminate].
       destruct (row_attr c f); injection H as <- _; exact E.
     + destruct (String.eqb f "id"); [|discriminate]. dbind H as [s2 i].
@@ -84,6 +85,7 @@ Proof.
       destruct (row_attr c p); [|discriminate]. injection E as <- _. reflexivity.
     + destruct (String.eqb p "id"); [|discriminate]. dbind E as [s2 i].
       injection E as <- _. apply touch_slot_out in E0. exact E0.
+    + destruct (String.eqb p "id"); [|discriminate]. injection E as <- _. reflexivity.
 Qed.
 
 Lemma reference_out e path s s' v : reference e path s = Ok (s', v) -> same_out s s'.
@@ -96,6 +98,7 @@ Proof.
   - injection H as <- _. exact E0.
   - dbind H as [s2 i]. injection H as <- _.
     apply touch_slot_out in E1. unfold same_out in *. congruence.
+  - injection H as <- _. exact E0.
 Qed.
 
 (* ------------------------------------------------------------------ what gets written *)
@@ -179,6 +182,78 @@ Proof.
   destruct (existsb _ _); reflexivity.
 Qed.
 
+(* ------------------------------------------------------------------ steps that only touch the
+   random-reference state (row history, remaining draws) *)
+
+Definition rnd_only (s s' : st) : Prop := exists x, s' = upd_rnd s x.
+
+Lemma upd_rnd_same s : upd_rnd s (rnd s) = s.
+Proof. destruct s; reflexivity. Qed.
+
+Lemma rnd_only_refl s : rnd_only s s.
+Proof. exists (rnd s). symmetry. apply upd_rnd_same. Qed.
+
+Lemma remember_history_rnd e s t nick id s' :
+  remember_history e s t nick id = Ok s' -> rnd_only s s'.
+Proof.
+  unfold remember_history. intros H.
+  destruct (existsb (String.eqb t) (hist_tables e)).
+  - destruct (match nick with Some n => negb (nick_maps_to (hist (rnd s)) n t) | None => false end);
+      [discriminate|]. injection H as <-. eexists. reflexivity.
+  - destruct nick as [n|].
+    + destruct (existsb (String.eqb n) (hist_tables e)); [discriminate|].
+      injection H as <-. apply rnd_only_refl.
+    + injection H as <-. apply rnd_only_refl.
+Qed.
+
+Lemma random_reference_rnd e to s s' v :
+  random_reference e to s = Ok (s', v) -> rnd_only s s'.
+Proof.
+  unfold random_reference. intros H.
+  destruct (negb (rr_ok e)); [discriminate|].
+  dbind H as [[[nick table] lo] hi].
+  destruct (draws (rnd s)) as [|r rest]; [discriminate|].
+  destruct ((0 <=? r) && (r <? hi - lo + 1)); [|discriminate].
+  dbind H as [t i]. injection H as <- _. eexists. reflexivity.
+Qed.
+
+Lemma rnd_only_out s s' : rnd_only s s' -> out s' = out s.
+Proof. intros [x ->]. reflexivity. Qed.
+
+(* writing a row commutes with any change of the random-reference state *)
+Definition liftRA {A} (x : rstate) (r : result (st * A)) : result (st * A) :=
+  match r with Ok (s, a) => Ok (upd_rnd s x, a) | Err e => Err e end.
+Definition liftRS (x : rstate) (r : result st) : result st :=
+  match r with Ok s => Ok (upd_rnd s x) | Err e => Err e end.
+
+Lemma touch_slot_rnd s n x : touch_slot (upd_rnd s x) n = liftRA x (touch_slot s n).
+Proof.
+  unfold touch_slot. cbn [slots upd_rnd].
+  destruct (lookup n (slots s)) as [sl|]; [|reflexivity].
+  destruct (s_alloc sl); reflexivity.
+Qed.
+
+Lemma flatten_fields_rnd fs : forall s x, flatten_fields (upd_rnd s x) fs = liftRA x (flatten_fields s fs).
+Proof.
+  induction fs as [|[n v] r IH]; intros s x; cbn [flatten_fields]; [reflexivity|].
+  destruct (hidden n); [apply IH|].
+  destruct v; cbn [bind]; try reflexivity;
+    try (rewrite IH; destruct (flatten_fields s r) as [[s2 rest]|]; reflexivity).
+  - change (heap (upd_rnd s x)) with (heap s). destruct (nth_error (heap s) h); [|reflexivity]. cbn [bind].
+    rewrite IH. destruct (flatten_fields s r) as [[s2 rest]|]; reflexivity.
+  - change (slots (upd_rnd s x)) with (slots s). destruct (lookup name (slots s)); [|reflexivity].
+    rewrite touch_slot_rnd. destruct (touch_slot s name) as [[s1 i]|]; [|reflexivity]. cbn [liftRA bind].
+    rewrite IH. destruct (flatten_fields s1 r) as [[s2 rest]|]; reflexivity.
+Qed.
+
+Lemma write_row_rnd s h x : write_row (upd_rnd s x) h = liftRS x (write_row s h).
+Proof.
+  unfold write_row. change (heap (upd_rnd s x)) with (heap s).
+  destruct (nth_error (heap s) h) as [c|]; [|reflexivity].
+  destruct (hidden (c_table c)); [reflexivity|].
+  rewrite flatten_fields_rnd. destruct (flatten_fields s (c_fields c)) as [[s1 fs]|]; reflexivity.
+Qed.
+
 (* ------------------------------------------------------------------ output only grows, and stays clean *)
 
 (* [extends s s'] : out s' = new ++ out s with every new row clean *)
@@ -213,9 +288,10 @@ Proof.
     destruct x as [t|name d].
     + destruct (t_once t && c); [injection H as <- _; apply extends_refl|].
       dbind H as [s1 r1]. injection H as <- _. apply IH in E. exact E.
-    + dbind H as [s1 r1]. injection H as <- _. apply IH in E.
-      eapply extends_trans; [eapply extends_eq_l; [|exact E]; apply push_frame_out|].
-      apply extends_same. rewrite set_var_out, pop_frame_out. reflexivity.
+    + destruct d; try discriminate;
+        (dbind H as [s1 r1]; injection H as <- _; apply IH in E;
+         (eapply extends_trans; [eapply extends_eq_l; [|exact E]; apply push_frame_out|]);
+         apply extends_same; rewrite set_var_out, pop_frame_out; reflexivity).
   - (* TRows *)
     dbind H as [s1 cnt]. dbind H as [s2 r2]. injection H as <- _.
     assert (H1 : extends s s1).
@@ -234,15 +310,16 @@ Proof.
     destruct (new_row_id s (t_table t) (t_nick t)) as [s1 id] eqn:Hid.
     dbind H as [s4 r4].
     destruct (nth_error (heap s4) (length (heap s1))) as [c|]; [|discriminate].
-    dbind H as w0. dbind H as [s7 r7]. injection H as <- _.
-    apply IH in E. apply IH in E1.
+    dbind H as s5. dbind H as w0. dbind H as [s7 r7]. injection H as <- _.
+    apply IH in E. apply IH in E2.
+    apply remember_history_rnd in E0. apply rnd_only_out in E0.
     assert (H0 : out s1 = out s).
     { pose proof (new_row_id_out s (t_table t) (t_nick t)) as Hn. rewrite Hid in Hn. exact Hn. }
     eapply extends_trans; [eapply extends_eq_l; [|exact E]|].
     { rewrite register_object_out, set_obj_out. cbn [out upd_heap]. exact H0. }
-    eapply extends_trans; [|exact E1].
-    apply write_row_spec in E0. rewrite remember_deps_out in E0.
-    destruct E0 as [Hs|(row & Hr & Hc & _)].
+    eapply extends_trans; [|exact E2].
+    apply write_row_spec in E1. rewrite E0, remember_deps_out in E1.
+    destruct E1 as [Hs|(row & Hr & Hc & _)].
     + apply extends_same. exact Hs.
     + exists [row]. split; [exact Hr|]. constructor; [exact Hc|constructor].
   - (* TFields *)
@@ -251,7 +328,7 @@ Proof.
     dbind H as [s1 v]. apply IH in E. apply IH in H.
     eapply extends_trans; [exact E|]. eapply extends_eq_l; [|exact H]. apply set_field_out.
   - (* TField *)
-    destruct d as [z|x|ps|path|t].
+    destruct d as [z|x|ps|path|t|to].
     + injection H as <- _. apply extends_refl.
     + destruct (version e =? 3); [injection H as <- _; apply extends_refl|].
       dbind H as w0. injection H as <- _. apply extends_refl.
@@ -260,6 +337,8 @@ Proof.
     + dbind H as [s1 v]. injection H as <- _.
       apply extends_same. apply reference_out in E. exact E.
     + apply IH in H. exact H.
+    + dbind H as [s1 v]. injection H as <- _.
+      apply extends_same. apply rnd_only_out. eapply random_reference_rnd. exact E.
 Qed.
 
 (* keep the kernel from unfolding the evaluator when it compares terms at Qed *)
